@@ -293,6 +293,17 @@ func (ev *evalCtx) sel(e *SExpr) Val {
 	if x.Typ == nil {
 		return ev.fail("selector .%s on ghost term", e.Name)
 	}
+	if _, isIface := types.Unalias(x.Typ).Underlying().(*types.Interface); isIface {
+		// interface value whose dynamic value is statically known on this path
+		if x.Dyn == nil {
+			if kv, ok := ex.known[x.T]; ok && kv.Dyn != nil {
+				x.Dyn = kv.Dyn
+			}
+		}
+		if x.Dyn != nil {
+			x = *x.Dyn
+		}
+	}
 	el := derefType(x.Typ)
 	s := structOf(el)
 	if s == nil {
